@@ -6,15 +6,18 @@ Open Scope N_scope.
 
 Inductive cause := CTrunc | CNeg | CBadVersion | CDepth | CUnknownType.
 
-(* the type id Thrift assigns to each cause (protocol exception codes of exception.go) *)
+(* the type id Thrift assigns to each cause: TProtocolException codes as Thrift defines them
+   (INVALID_DATA 1, NEGATIVE_SIZE 2, BAD_VERSION 4, DEPTH_LIMIT 6) — literals, NOT the constants
+   regenerated from exception.go, so that a renumbering in the code is a failing input of the
+   correspondence run and not only a broken [consts_ok] obligation *)
 Definition cause_type (c : cause) : Z :=
   match c with
-  | CTrunc => thrift_INVALID_DATA
-  | CNeg => thrift_NEGATIVE_SIZE
-  | CBadVersion => thrift_BAD_VERSION
-  | CDepth => thrift_DEPTH_LIMIT
-  | CUnknownType => thrift_INVALID_DATA
-  end.
+  | CTrunc => 1
+  | CNeg => 2
+  | CBadVersion => 4
+  | CDepth => 6
+  | CUnknownType => 1
+  end%Z.
 
 Definition cause_eqb (a b : cause) : bool :=
   match a, b with
@@ -50,7 +53,7 @@ Definition ref_cause (k : kind) (buf : bytes) : option cause :=
     match k with
     | KFieldBegin =>
       if len buf <? 1 then Some CTrunc
-      else if Z.eqb (to_signed 8 (nth 0 buf 0)) thrift_STOP then None
+      else if Z.eqb (to_signed 8 (nth 0 buf 0)) 0 then None   (* T_STOP *)
       else if len buf <? 3 then Some CTrunc else None
     | _ => ref_str buf
     end
@@ -59,7 +62,7 @@ Definition ref_cause (k : kind) (buf : bytes) : option cause :=
 (* message begin: version word (strict), name, sequence id *)
 Definition ref_msg (buf : bytes) : option cause :=
   if len buf <? 4 then Some CTrunc
-  else if negb (N.land (unbe (take 4 buf)) (Z.to_N thrift_msgVersionMask) =? Z.to_N thrift_msgVersion1)
+  else if negb (N.land (unbe (take 4 buf)) 4294901760 =? 2147549184)   (* 0xffff0000, VERSION_1 = 0x80010000 *)
   then Some CBadVersion
   else
     match ref_str (drop 4 buf) with
